@@ -32,6 +32,7 @@ def run_checks(wt, out, ids):
 def main():
     args = [a for a in sys.argv[1:] if not a.startswith('--')]
     allc = '--all-checks' in sys.argv
+    own = '--own' in sys.argv          # only the check of the seed's own property
     items = []
     for d in sorted(os.listdir(os.path.join(ROOT, 'seeded'))):
         pd = os.path.join(ROOT, 'seeded', d, 'patch.diff')
@@ -56,7 +57,7 @@ def main():
                 if a.returncode != 0:
                     rows.append((name, prop, {'_': {'rc': 'patch does not apply', 'violations': 0, 'first': ''}}))
                     continue
-                ids = sorted(set([prop] + (RELATED.get(prop, []) if not allc else ['C%02d' % i for i in range(1, 21)])))
+                ids = sorted(set([prop] + ([] if own else (RELATED.get(prop, []) if not allc else ['C%02d' % i for i in range(1, 21)]))))
                 out = os.path.join(base, 'out')
                 r = run_checks(wt, out, ids)
                 rows.append((name, prop, r))
